@@ -32,6 +32,7 @@ class IngestWorld(object):
     self.lists = {'whitelist': [], 'blacklist': []}   # compiled reference lists in force
     self.ref_counts = {'blacklistMatches': 0, 'whitelistRejects': 0}
     self.prop = plan.get('prop', 'C01')
+    self.pause_after = None
 
   # ---------------------------------------------------------------- set-up
   def install(self):
@@ -44,6 +45,12 @@ class IngestWorld(object):
 
       def process(self, metric, datapoint):
         me.got.append((metric, datapoint))
+        if me.pause_after is not None:
+          me.pause_after -= 1
+          if me.pause_after <= 0:
+            me.pause_after = None
+            me.ctx.fault('pause_raised_inside_a_chunk')
+            me.w.events.pauseReceivingMetrics()
         return Processor.NO_OUTPUT
     w.state.pipeline_processors[:] = [Recorder()]
     txlog.addObserver(self.log_observer)
@@ -292,6 +299,8 @@ class IngestWorld(object):
       elif k == 'pause':
         self.w.events.pauseReceivingMetrics()
         ctx.fault('receiver_pause')
+      elif k == 'pause_at':
+        self.pause_after = step[1]
       elif k == 'resume':
         self.w.events.resumeReceivingMetrics()
       elif k == 'advance':
